@@ -132,7 +132,23 @@ impl RsyncEnv {
         }
         config.rsync_args = Some(vec!["--fake-rsync".into(), log.to_string_lossy().into_owned()]);
         config.rsync_timeout = Some(Duration::from_secs(60));
-        let mut collector = Collector::new(&config).expect("collector");
+        // Writing a script and executing it right away can fail with ETXTBSY when
+        // another thread of this process forks while the script is still open for
+        // writing (the child holds the descriptor until its exec). Environments are
+        // therefore created one at a time, and the probe (`rsync -h`) is retried.
+        static CREATE: std::sync::Mutex<()> = std::sync::Mutex::new(());
+        let _guard = CREATE.lock().unwrap_or_else(|e| e.into_inner());
+        let mut attempt = 0;
+        let mut collector = loop {
+            match Collector::new(&config) {
+                Ok(collector) => break collector,
+                Err(_) if attempt < 20 => {
+                    attempt += 1;
+                    std::thread::sleep(Duration::from_millis(25));
+                }
+                Err(err) => panic!("collector: {err:?}"),
+            }
+        };
         collector.ignite().expect("ignite");
         RsyncEnv { _dir: dir, cache, log, collector: Box::leak(Box::new(collector)) }
     }
@@ -200,7 +216,23 @@ impl RrdpEnv {
         config.allow_dubious_hosts = true;
         config.rrdp_root_certs = vec![httpsrv::ca_cert_path()];
         config.rrdp_timeout = Some(Duration::from_secs(60));
-        let mut collector = Collector::new(&config).expect("collector");
+        // Writing a script and executing it right away can fail with ETXTBSY when
+        // another thread of this process forks while the script is still open for
+        // writing (the child holds the descriptor until its exec). Environments are
+        // therefore created one at a time, and the probe (`rsync -h`) is retried.
+        static CREATE: std::sync::Mutex<()> = std::sync::Mutex::new(());
+        let _guard = CREATE.lock().unwrap_or_else(|e| e.into_inner());
+        let mut attempt = 0;
+        let mut collector = loop {
+            match Collector::new(&config) {
+                Ok(collector) => break collector,
+                Err(_) if attempt < 20 => {
+                    attempt += 1;
+                    std::thread::sleep(Duration::from_millis(25));
+                }
+                Err(err) => panic!("collector: {err:?}"),
+            }
+        };
         collector.ignite().expect("ignite");
         RrdpEnv {
             _dir: dir, cache, server, seen: Mutex::new(Vec::new()),
